@@ -34,7 +34,9 @@ const Reset = -1
 //
 // Elem is the element kind the counter is instantiated with (see kinds.go):
 // "" is Counter[int] fed the stream values themselves, every other kind turns
-// stream value v into an element of its own type.
+// stream value v into an element of its own type.  For the kinds with few
+// values (struct{}, [0]int, bool, ...) value v stands for v mod card and the
+// oracle works on the stream reduced like that.
 type DetCase struct {
 	Size int    `json:"n"`
 	Reps int    `json:"reps,omitempty"`
@@ -54,6 +56,7 @@ func clampSize(n int) int {
 // runDet interprets a DetCase: oracle after every single Add / Reset, on
 // each of the Reps independent counters.
 func runDet(c DetCase, o *vk.Obs) string {
+	c.Ops = collapse(c.Elem, c.Ops) // kinds with few values: what the reference has to see
 	switch c.Elem {
 	case "":
 		return detKind(c, o, plainInts())
@@ -75,6 +78,16 @@ func runDet(c DetCase, o *vk.Obs) string {
 		return detKind(c, o, a64Elems())
 	case kindA512:
 		return detKind(c, o, a512Elems())
+	case kindUnit:
+		return detKind(c, o, unitElems())
+	case kindZArr:
+		return detKind(c, o, zarrElems())
+	case kindZNest:
+		return detKind(c, o, znestElems())
+	case kindBool:
+		return detKind(c, o, boolElems())
+	case kindU8:
+		return detKind(c, o, u8Elems())
 	}
 	return badKind(c.Elem)
 }
@@ -256,12 +269,77 @@ func runDetOnce[T comparable](c DetCase, o *vk.Obs, es *elems[T], elts []T) stri
 // Elem is the element kind as in DetCase; the law of Count depends on the
 // stream through the equalities between its values only, so the statistics
 // are those of Counter[int] for every kind.
+//
+// A stream of several hundred thousand values (buffers of 2^10 .. 2^16
+// elements) is given by its descriptor instead of Vals: D > 0 distinct values,
+// each repeated 1..K times in the interleaving Order, built by buildStream from
+// Seed.
 type StatCase struct {
-	Size int    `json:"n"`
-	Vals []int  `json:"v"`
-	Mid  int    `json:"mid,omitempty"`
-	R    int    `json:"r"`
-	Elem string `json:"elem,omitempty"`
+	Size  int    `json:"n"`
+	Vals  []int  `json:"v"`
+	Mid   int    `json:"mid,omitempty"`
+	R     int    `json:"r"`
+	Elem  string `json:"elem,omitempty"`
+	D     int    `json:"d,omitempty"`
+	K     int    `json:"k,omitempty"`
+	Order string `json:"order,omitempty"`
+	Seed  uint64 `json:"seed,omitempty"`
+}
+
+// maxStatD bounds the descriptor of a stat stream (memory of a replay).
+const maxStatD = 1 << 22
+
+// expand returns the case with the explicit stream the interpreter works on:
+// built from the descriptor if there is one, and reduced to the values of the
+// element kind if that has only a few (see collapse).
+func (c StatCase) expand() StatCase {
+	if len(c.Vals) == 0 && c.D > 0 {
+		c.Vals = buildStream(min(c.D, maxStatD), min(max(c.K, 1), 8), c.Order, vk.NewRNG(c.Seed))
+	}
+	c.Vals = collapse(c.Elem, c.Vals)
+	return c
+}
+
+// buildStream makes a stream over the values 0..d-1 in which value v occurs
+// 1..k times, in one of three interleavings.
+func buildStream(d, k int, order string, rng *vk.RNG) []int {
+	if k < 1 {
+		k = 1
+	}
+	reps := make([]int, d)
+	total := 0
+	for v := range reps {
+		reps[v] = 1 + rng.Intn(k)
+		total += reps[v]
+	}
+	out := make([]int, 0, total)
+	switch order {
+	case "adjacent": // v v v w w x …: a repeat follows its original immediately
+		for v, r := range reps {
+			for j := 0; j < r; j++ {
+				out = append(out, v)
+			}
+		}
+	case "rounds": // every value once, then every value with a 2nd occurrence, …: repeats far apart
+		for j := 0; j < k; j++ {
+			for v, r := range reps {
+				if r > j {
+					out = append(out, v)
+				}
+			}
+		}
+	default: // "shuffle": uniformly interleaved
+		for v, r := range reps {
+			for j := 0; j < r; j++ {
+				out = append(out, v)
+			}
+		}
+		for i := len(out) - 1; i > 0; i-- {
+			j := rng.Intn(i + 1)
+			out[i], out[j] = out[j], out[i]
+		}
+	}
+	return out
 }
 
 // distinctIn counts the distinct values of vs (values are small non-negative ints).
@@ -308,6 +386,16 @@ func statRunner(c StatCase) (oneCounter func() (mid, end float64), bad string) {
 		return statKind(c, a64Elems())
 	case kindA512:
 		return statKind(c, a512Elems())
+	case kindUnit:
+		return statKind(c, unitElems())
+	case kindZArr:
+		return statKind(c, zarrElems())
+	case kindZNest:
+		return statKind(c, znestElems())
+	case kindBool:
+		return statKind(c, boolElems())
+	case kindU8:
+		return statKind(c, u8Elems())
 	}
 	return nil, badKind(c.Elem)
 }
@@ -357,7 +445,34 @@ func statKind[T comparable](c StatCase, es *elems[T]) (func() (mid, end float64)
 // errors for sizes 2 and 3 and 12 for sizes 4..7; even with sigma = 1.9 that
 // is beyond 8.4 (6.3) normal deviations, < 1e-9 with a wide margin.  The price
 // is sensitivity to under-estimation at tiny sizes, which is poor anyway.
+//
+// Few counters (large buffers: R = 128 .. 512).  For a buffer of >= 1024
+// elements Count is a thinned count of several hundred elements times 2^k with
+// k all but fixed by the stream: skewness <= sqrt(2/size) <= 0.05, i.e. normal
+// for the purpose.  What matters then is that s is estimated from R values
+// only, so that the statistic is Student's t with nu = R-1 degrees of freedom
+// and not normal.  Its tail is bounded through Wallace's inequality (1959):
+// P(t_nu > b) <= Q(z) with z = sqrt((nu - 1/2) ln(1 + b^2/nu)), Q the normal
+// tail.  studentBand returns the b for which z = 7 (Q = 1.3e-12 per side,
+// which leaves a factor 50 for the skewness correction above, and some 20
+// checkpoints per run, below 1e-9): 7.99 for R = 100, 7.75 for R = 128, 7.2
+// for R = 512.  The band in force is the larger of 8 and studentBand(R): 8
+// for every R >= 100, wider for the few counters a hand-made replay may ask
+// for.
 const bandUpper = 8.0
+
+// studentZ is the normal deviate the band has to keep for few counters.
+const studentZ = 7.0
+
+// studentBand returns b such that P(t > b) <= Q(studentZ) for Student's t with
+// R-1 degrees of freedom (+Inf for R < 3).
+func studentBand(R int) float64 {
+	nu := float64(R - 1)
+	if nu < 2 {
+		return math.Inf(1)
+	}
+	return math.Sqrt(nu * math.Expm1(studentZ*studentZ/(nu-0.5)))
+}
 
 func bandLower(size int) float64 {
 	switch {
@@ -405,10 +520,11 @@ func verdict(what string, size, d int, st stat) (float64, string) {
 	}
 	se := st.SD / math.Sqrt(float64(st.N))
 	t := (st.Mean - float64(d)) / se
-	lo := bandLower(size)
-	if t > bandUpper || t < -lo {
-		return t, fmt.Sprintf("%s: mean Count over %d independent counters (size %d) = %.4f, true distinct count %d: off by %+.2f standard errors (s = %.4f, band -%.0f..+%.0f s.e.), relative bias %+.2f%%",
-			what, st.N, size, st.Mean, d, t, st.SD, lo, bandUpper, 100*(st.Mean-float64(d))/math.Max(1, float64(d)))
+	few := studentBand(st.N)
+	lo, up := math.Max(bandLower(size), few), math.Max(bandUpper, few)
+	if t > up || t < -lo {
+		return t, fmt.Sprintf("%s: mean Count over %d independent counters (size %d) = %.4f, true distinct count %d: off by %+.2f standard errors (s = %.4f, band -%.4g..+%.4g s.e.), relative bias %+.2f%%",
+			what, st.N, size, st.Mean, d, t, st.SD, lo, up, 100*(st.Mean-float64(d))/math.Max(1, float64(d)))
 	}
 	return t, ""
 }
@@ -447,6 +563,7 @@ func clampR(r int) int {
 
 // runStat is the replay entry: it runs the R counters on all cores itself.
 func runStat(c StatCase, o *vk.Obs) string {
+	c = c.expand()
 	R := clampR(c.R)
 	oneCounter, bad := statRunner(c)
 	if bad != "" {
@@ -602,6 +719,16 @@ func runHuge(c HugeCase, o *vk.Obs) string {
 		return hugeKind(c, o, a64Elems())
 	case kindA512:
 		return hugeKind(c, o, a512Elems())
+	case kindUnit:
+		return hugeKind(c, o, unitElems())
+	case kindZArr:
+		return hugeKind(c, o, zarrElems())
+	case kindZNest:
+		return hugeKind(c, o, znestElems())
+	case kindBool:
+		return hugeKind(c, o, boolElems())
+	case kindU8:
+		return hugeKind(c, o, u8Elems())
 	}
 	return badKind(c.Elem)
 }
@@ -624,16 +751,23 @@ func hugeKind[T comparable](c HugeCase, o *vk.Obs, es *elems[T]) string {
 			return es.of(x)
 		}
 	}
+	// dist is the number of distinct elements among n consecutive stream values
+	dist := func(n int) int {
+		if es.card > 0 {
+			return min(n, es.card)
+		}
+		return n
+	}
 	ctr := distinct.NewCounter[T](size)
 	for v := 0; v < c.Fill; v++ {
 		ctr.Add(val(v))
 		if v%4096 == 0 || v == c.Fill-1 {
 			if l := ctr.Len(); l > size {
-				return fmt.Sprintf("size %d: after %d distinct values Len = %d exceeds the buffer size", size, v+1, l)
+				return fmt.Sprintf("size %d: after %d distinct values Len = %d exceeds the buffer size", size, dist(v+1), l)
 			}
-			if v+1 < size {
-				if l, n := ctr.Len(), ctr.Count(); l != v+1 || n != uint64(v+1) {
-					return fmt.Sprintf("size %d%s: after %d distinct values (fewer than the buffer size) Len = %d, Count = %d, want both %d", size, hugeElem(es), v+1, l, n, v+1)
+			if d := dist(v + 1); d < size {
+				if l, n := ctr.Len(), ctr.Count(); l != d || n != uint64(d) {
+					return fmt.Sprintf("size %d%s: after %d Adds of %d distinct values (fewer than the buffer size) Len = %d, Count = %d, want both %d", size, hugeElem(es), v+1, d, l, n, d)
 				}
 			}
 		}
@@ -650,20 +784,21 @@ func hugeKind[T comparable](c HugeCase, o *vk.Obs, es *elems[T]) string {
 		ctr.Add(val(-1 - v))
 		ctr.Add(val(-1 - v/2))
 	}
-	if l, n := ctr.Len(), ctr.Count(); l != after || n != uint64(after) {
-		return fmt.Sprintf("size %d%s: after Reset and %d distinct values (fewer than the buffer size) Len = %d, Count = %d, want both %d", size, hugeElem(es), after, l, n, after)
+	if l, n := ctr.Len(), ctr.Count(); l != dist(after) || n != uint64(dist(after)) {
+		return fmt.Sprintf("size %d%s: after Reset and %d distinct values (fewer than the buffer size) Len = %d, Count = %d, want both %d", size, hugeElem(es), dist(after), l, n, dist(after))
 	}
 	// bytes of element storage held at the Reset while the counter was exact
 	var zero T
 	var held uint64
 	if c.Fill > 0 && c.Fill < size {
-		held = uint64(c.Fill) * uint64(unsafe.Sizeof(zero))
+		held = uint64(dist(c.Fill)) * uint64(unsafe.Sizeof(zero))
 	}
-	if c.Fill > 1<<18 || held > 4<<20 {
+	if (c.Fill > 1<<18 && es.card == 0) || held > 4<<20 || (es.card > 0 && c.Fill > es.card) {
 		o.NonTrivial()
 	}
-	o.ClassIf(c.Fill >= size, "buffer_halved_before_Reset")
-	o.ClassIf(c.Fill > 1<<18, "more_than_2^18_values_buffered_at_Reset")
+	o.ClassIf(unsafe.Sizeof(zero) == 0, "zero_size_element_type")
+	o.ClassIf(dist(c.Fill) >= size, "buffer_halved_before_Reset")
+	o.ClassIf(dist(c.Fill) > 1<<18, "more_than_2^18_values_buffered_at_Reset")
 	o.ClassIf(held > 4<<20, "exact_with>4MiB_of_elements")
 	o.ClassIf(held > 16<<20, "exact_with>16MiB_of_elements")
 	o.ClassIf(held > 64<<20, "exact_with>64MiB_of_elements")
